@@ -348,4 +348,65 @@ theorem T_C05_near_chain_order :
     (runAdds closeV3 {} [(chainB, ([] : List String)), (chainA, []), (chainC, [])]).2.map (·.index) = [0, 0, 0] := by
   decide +kernel
 
+/-! ### the `None` branch of `add` -/
+
+/-- **T_C05_mesh_list_branch.** `Mesh._add_vertices` never takes the `None` branch: the calls it makes are a run of the
+    general `add` on arguments that are all of the form `some slave_patches` (so the first-match theorems above cover
+    everything `Mesh` does, and `T_C05_none_branch` is about direct users of `VertexList` only). -/
+theorem T_C05_mesh_list_branch (calls : List (P × List N)) :
+    ∀ vl : VList P N, runAdds close vl calls = runAddsOpt close vl (calls.map (fun c => (c.1, some c.2))) := by
+  induction calls with
+  | nil => intro vl; rfl
+  | cons c rest ih =>
+    intro vl
+    obtain ⟨p, s⟩ := c
+    simp only [runAdds, runAddsOpt, List.map_cons, ih]
+
+theorem T_C05_mesh_list_branch_op (slaves : List N) (vl : VList P N) (op : Op P N) :
+    addVertices close slaves vl op =
+      runAddsOpt close vl ((cornerCalls slaves op).map (fun c => (c.1, some c.2))) :=
+  T_C05_mesh_list_branch close _ vl
+
+/-- **T_C05_none_branch.** What `add(point, None)` does, for any list and any reflexive closeness test: the registry is not
+    touched; the vertex handed back is within the tolerance of the point; it is the *first* vertex of the list within
+    the tolerance when that vertex is not a registered (slave) copy, and otherwise a new vertex appended at the end
+    (also when the first vertex within the tolerance is a slave copy — observation O2). -/
+theorem T_C05_none_branch (vl : VList P N) (p : P) (hr : close p p = true) :
+    (add close vl p none).1.duplicated = vl.duplicated ∧
+    close (add close vl p none).2.pos p = true ∧
+    ((∃ u, findUnique close vl p = some u ∧ vl.duplicated.any (fun d => d.vertex.index == u.index) = false ∧
+        add close vl p none = (vl, u)) ∨
+     ((findUnique close vl p = none ∨
+        ∃ u, findUnique close vl p = some u ∧ vl.duplicated.any (fun d => d.vertex.index == u.index) = true) ∧
+      (add close vl p none).2 = newVertex vl p ∧
+      (add close vl p none).1.vertices = vl.vertices ++ [newVertex vl p])) := by
+  have hfresh : (findUnique close vl p = none ∨
+      ∃ u, findUnique close vl p = some u ∧ vl.duplicated.any (fun d => d.vertex.index == u.index) = true) →
+      add close vl p none = ({ vl with vertices := vl.vertices ++ [newVertex vl p] }, newVertex vl p) := by
+    intro h
+    rcases h with h | ⟨u, h, ha⟩
+    · unfold add; simp only [h]
+    · unfold add; simp only [h, ha, if_true]
+  cases hf : findUnique close vl p with
+  | none =>
+    have h := hfresh (Or.inl hf)
+    rw [h]
+    exact ⟨rfl, hr, Or.inr ⟨Or.inl rfl, rfl, rfl⟩⟩
+  | some u =>
+    cases ha : vl.duplicated.any (fun d => d.vertex.index == u.index) with
+    | true =>
+      have h := hfresh (Or.inr ⟨u, hf, ha⟩)
+      rw [h]
+      exact ⟨rfl, hr, Or.inr ⟨Or.inr ⟨u, rfl, ha⟩, rfl, rfl⟩⟩
+    | false =>
+      have h : add close vl p none = (vl, u) := by
+        unfold add; simp only [hf, ha, Bool.false_eq_true, if_false]
+      rw [h]
+      refine ⟨rfl, ?_, Or.inl ⟨u, rfl, ha, rfl⟩⟩
+      unfold findUnique at hf
+      have := List.find?_some hf
+      simpa using this
+
+example : (add (fun (a b : Nat) => a == b) ({} : VList Nat String) 3 none).2 = ⟨0, 3⟩ := by decide
+
 end CBV.C05
